@@ -130,7 +130,7 @@ def make_judges(ctx):
 
 def floors(tier):
     return [('mix', op, sg, rt) for op in ('add', 'sub', 'mul') for sg in ('ss', 'su', 'us', 'uu') for rt in ('operator', 'function', 'numpy')] + \
-           [('nfrac', '<0'), ('nfrac', '>w')]
+           [('nfrac', '<0'), ('nfrac', '>w'), ('value-built',)] + [('integer-formats', sg) for sg in ('ss', 'su', 'us', 'uu')]
 
 
 # ------------------------------------------------------------------------------------------ workload
@@ -224,6 +224,46 @@ def run_case(case, ctx):
             x = Fxp(np.array([rng.randint(lox, hix) for _ in range(n)]), fx[0], fx[1], fx[2], raw=True)
             y = Fxp(np.array([rng.randint(loy, hiy) for _ in range(n)]), fy[0], fy[1], fy[2], raw=True)
         do_ops(ctx, x, y, rng=rng)
+        if (case['i'] // 3) % 2 == 0:
+            # the same operands built from VALUES (python integers / integer arrays when the format has no fraction bits, floats otherwise) instead of raw codes:
+            # their value type (int / float) must not change the result
+            def from_values(src, f):
+                codes = np.asarray(src.val, dtype=object)
+                if f[2] <= 0:
+                    vals = np.vectorize(lambda c: int(c) * (1 << -f[2]), otypes=[object])(codes)
+                    v = int(vals.item()) if vals.ndim == 0 else np.array(vals.tolist())
+                else:
+                    vals = np.vectorize(lambda c: float(F(int(c)) * R.lsb(f[2])), otypes=[float])(codes)
+                    v = float(vals) if vals.ndim == 0 else vals
+                return Fxp(v, f[0], f[1], f[2])
+            try:
+                xv, yv = from_values(x, fx), from_values(y, fy)
+            except Exception:
+                xv = yv = None
+            if xv is not None and np.array_equal(np.asarray(xv.val, dtype=object), np.asarray(x.val, dtype=object)) and np.array_equal(np.asarray(yv.val, dtype=object), np.asarray(y.val, dtype=object)):
+                do_ops(ctx, xv, yv, routes=('operator', 'function', 'numpy'))
+                do_ops(ctx, xv, y, routes=('operator',))
+                ctx.floor_hit(('value-built',))
+        if (case['i'] // 6) % 3 == 0:
+            # integer formats (no fraction bits in either operand, hence none in the result) holding values given as python integers / integer arrays
+            ix = (fx[0], min(fx[1], 24), rng.choice([0, 0, -1]))
+            iy = (fy[0], min(fy[1], 24), rng.choice([0, 0, -1]))
+            ilx, ihx = R.code_range(ix[0], ix[1])
+            ily, ihy = R.code_range(iy[0], iy[1])
+            for _rep in range(2):
+                cxs = [rng.choice([ilx, ihx, rng.randint(ilx, ihx)]) for _ in range(3)]
+                cys = [rng.choice([ily, ihy, rng.randint(ily, ihy)]) for _ in range(3)]
+                try:
+                    if _rep == 0:
+                        xi = Fxp(cxs[0] * (1 << -ix[2]), ix[0], ix[1], ix[2])
+                        yi = Fxp(cys[0] * (1 << -iy[2]), iy[0], iy[1], iy[2])
+                    else:
+                        xi = Fxp([c * (1 << -ix[2]) for c in cxs], ix[0], ix[1], ix[2])
+                        yi = Fxp(np.array([c * (1 << -iy[2]) for c in cys]), iy[0], iy[1], iy[2])
+                except Exception:
+                    continue
+                do_ops(ctx, xi, yi, routes=('operator', 'function', 'numpy'))
+                ctx.floor_hit(('integer-formats', ('s' if ix[0] else 'u') + ('s' if iy[0] else 'u')))
         if case['i'] % 4 == 0:
             # operands with a history: signedness changed on its own, built like= another object with another sign, flags raised by an earlier store
             x2 = Fxp(np.asarray(x.val), fx[0], fx[1], fx[2], raw=True)
